@@ -557,6 +557,17 @@ theorem prof_series_confined (cfg : Cfg) (c : PCtx) (h : ProfCfg cfg c) (labels 
   subst hp
   exact plan_noDate _ _ _ _ _ hq
 
+/-- **prof_labels_union_confined.** LabelNames / LabelValues WITH selector sets: `fp` is the UNION ALL of one selector statement
+    per set — each an index scan of `profiles_series_gin` with the two date bounds (`selectorSel`) — and the main select scans
+    the index with the two date bounds and `fingerprint IN fp`. -/
+theorem prof_labels_union_confined (cfg : Cfg) (c : PCtx) (h : ProfCfg cfg c) (col : String) (label : Option Bytes)
+    (scripts : List (List Selector × PQuery)) (hq : ∀ p ∈ scripts, Prof.plan "" [] [] p.1 = some p.2) :
+    unionConfined cfg (winProf c) (labelsUnion c col label (scripts.map (fun p => (p.2.globals, p.2.kvs)))) = true := by
+  apply labelsUnion_confined cfg c h
+  intro p hp g hg
+  obtain ⟨sq, hsq, rfl⟩ := List.mem_map.mp hp
+  exact plan_noDate _ _ _ _ _ (hq sq hsq) g hg
+
 /-- **prof_labels_confined.** LabelNames / LabelValues without a selector: `profiles_series_gin` with the two date bounds. -/
 theorem prof_labels_confined (cfg : Cfg) (c : PCtx) (h : ProfCfg cfg c) (col : String) (label : Option Bytes) :
     confined cfg (winProf c) (labelsNoSel c col label) = true :=
